@@ -20,7 +20,7 @@ class Contract:
                  raises=(), locals=None, loops=None, defn=None, modifies=(), kind="function",
                  status="verify", impl_of=None, self_guard=None, defaults=None, ensures_on_raise=(),
                  attrs=None, is_lemma=False, note="", total=None, properties=(), inline=False, use_at_end=(), opaque=(),
-                 aliases_ok=(), use_at_start=(), cases=(), view=None):
+                 aliases_ok=(), use_at_start=(), cases=(), view=None, pure=False):
         self.key = key
         self.module = module
         self.qualname = qualname or key
@@ -50,6 +50,7 @@ class Contract:
         self.aliases_ok = set(aliases_ok)
         self.use_at_start = list(use_at_start)
         self.cases = list(cases)              # Boolean parameter fields to split on (verified once per valuation)
+        self.pure = pure                      # result is a function of the arguments: every call denotes the same uninterpreted application
         self.view = view                      # None: names opaque; 'string': names are strings (PYVC_NODE=str)
 
     def param_axioms(self, eng, st):
@@ -103,7 +104,9 @@ class Registry:
             return list(v.x)
         if k == "opt":
             return [v.x[0]] + self.flatten(v.x[1])
-        if k in ("obj", "list", "closure", "none"):
+        if k == "obj":
+            return [t for f in sorted(v.x) for t in self.flatten(v.x[f])]
+        if k in ("list", "closure", "none"):
             raise ContractDrift(f"defined predicate argument of type {v.t}")
         return [v.x]
 
@@ -191,7 +194,9 @@ class Registry:
         if isinstance(f, ast.Attribute):
             if f.attr in ("startswith", "endswith", "keys", "values", "items", "intersection", "union", "get"):
                 return True
-            return False
+            # a method all of whose contracts (whatever the receiver's class) are total: no requires, no raises
+            cands = [c for k, c in self.contracts.items() if k.split("@")[0].split(".")[-1] == f.attr and not c.is_lemma]
+            return bool(cands) and all(c.total for c in cands)
         return False
 
     # ------------------------------------------------------------------ calls
@@ -412,6 +417,8 @@ class Registry:
             return [v.x[0]] + self.consts_of(v.x[1])
         if k == "dict":
             return list(v.x)
+        if k == "obj":
+            return [t for f in sorted(v.x) for t in self.consts_of(v.x[f])]
         return [v.x]
 
     def quantifier(self, eng, which, node, st):
@@ -727,8 +734,13 @@ class Registry:
                     if isinstance(node, ast.Call) and ai_ < len(node.args):
                         arg_exprs[pn_] = node.args[ai_]
             return self.inline_call(eng, c, cs.vars, st, node, arg_exprs)
-        if getattr(eng, "qdepth", 0) > 0 and c.defn is None:
-            raise OutOfSubset(f"call of {c.key} under a binder needs a 'defn' contract")
+        if (getattr(eng, "qdepth", 0) > 0 or eng.spec or c.pure) and c.defn is None:
+            # a PURE, total callee without a defining expression: its result is an uninterpreted function of its arguments,
+            # axiomatised by its postcondition (forall args. requires => ensures[result := f(args)])
+            if not eng.spec and getattr(eng, "qdepth", 0) == 0:
+                for e, t in eng.spec_conj(c.requires, cs):
+                    eng.oblige(st, t, "pre@call", f"pre@call[{c.key}@{lineno}:{e[:40]}]", lineno)
+            return [(st, self.pure_fn_app(eng, c, cs, lineno))]
         saved_res = eng.result
         saved_bound = eng.bound
         if c.defn is None:
@@ -806,6 +818,39 @@ class Registry:
         finally:
             eng.result = saved_res
             eng.bound = saved_bound
+
+    def pure_fn_app(self, eng, c, cs, lineno):
+        if c.modifies or c.raises or c.returns is None or c.returns[0] not in ("bool", "str", "int", "node", "data", "bag", "set"):
+            raise OutOfSubset(f"call of {c.key} under a binder: needs a 'defn' contract or a pure total contract with a scalar result")
+        pnames = list(c.params)
+        args = [cs.vars[n] for n in pnames]
+        terms = [t for a in args for t in self.flatten(a)]
+        fn = self._pure_fns.get(c.key)
+        if fn is None:
+            fn = z3.Function("pure!" + c.key.replace(".", "_"), *[t.sort() for t in terms], sort_of(c.returns))
+            self._pure_fns[c.key] = fn
+        if ("pure", c.key) not in eng.axioms_used:
+            eng.axioms_used[("pure", c.key)] = TRUE  # placeholder against re-entrance
+            saved_bound, saved_spec, saved_q, saved_res = dict(eng.bound), eng.spec, getattr(eng, "qdepth", 0), eng.result
+            eng.spec, eng.qdepth = True, 90
+            eng.bound = {}   # the axiom is closed: no capture of binders of the call site
+            try:
+                pvs = {pn: eng.bvar("pf!" + pn, pt) for pn, pt in c.params.items()}
+                ps = State()
+                ps.vars = dict(pvs)
+                ps.old = dict(pvs)
+                consts = [k for v in pvs.values() for k in self.consts_of(v)]
+                app = fn(*[t for v in pvs.values() for t in self.flatten(v)])
+                eng.result = V(c.returns, app)
+                eng.qdepth = 91
+                req = zand(*[t for _, t in eng.spec_conj(c.requires, ps)])
+                ens = zand(*[t for _, t in eng.spec_conj(c.ensures, ps)])
+                eng.axioms_used[("pure", c.key)] = z3.ForAll(consts, z3.Implies(req, ens), patterns=[app]) if consts else z3.Implies(req, ens)
+            finally:
+                eng.bound, eng.spec, eng.qdepth, eng.result = saved_bound, saved_spec, saved_q, saved_res
+        return V(c.returns, fn(*terms))
+
+    _pure_fns = {}
 
     def _mod_path(self, node, modifies):
         path = []
